@@ -65,9 +65,22 @@ package dns
 //@   loop 1 decreases end ? 0 : 1
 //@   loop 1 decreases len(s) - off
 
+// type bitmap length (RFC 4034 4.1.2): per window two octets plus as many bitmap octets as its highest type
+// needs; the same walk packDataNsec performs (new window: close the previous block; entries that are out of
+// order are ignored for the length).  bml folds the rest of the list from a state (last window, last block
+// length, length so far); the loop invariant says the fold from the current state equals the fold from the start.
+//@ spec bmlw(t int) int = t / 256
+//@ spec bmln(t int) int = (t % 256) / 8 + 1
+//@ spec bmnw(t int, lw int, ll int) bool = bmlw(t) > lw && ll != 0
+//@ spec bmll1(t int, lw int, ll int) int = bmnw(t, lw, ll) ? 0 : ll
+//@ spec bmskip(t int, lw int, ll int) bool = bmlw(t) < lw || bmln(t) < bmll1(t, lw, ll)
+//@ spec bml(b seq, k int, lw int, ll int, l int) int = k >= len(b) ? l + ll + 2 : bml(b, k + 1, (bmskip(b[k], lw, ll) ? lw : bmlw(b[k])), (bmskip(b[k], lw, ll) ? bmll1(b[k], lw, ll) : bmln(b[k])), (bmnw(b[k], lw, ll) ? l + ll + 2 : l)) decreases len(b) - k
 //@ func typeBitMapLen [C08 C16]
 //@   ensures nonneg: ret0 >= 0
+//@   ensures fold: ret0 == bml(bitmap, 0, 0, 0, 0)
+//@   assert at "if window > lastwindow && lastlength != 0" wl: window == bmlw(t) && length == bmln(t)
 //@   loop 1 invariant l >= 0
+//@   loop 1 invariant bml(bitmap, rangeindex + 1, lastwindow, lastlength, l) == bml(bitmap, 0, 0, 0, 0) && -1 <= rangeindex && rangeindex < len(bitmap)
 //@   pure
 //@ func (*APLPrefix).len [C08 C16]
 //@   ensures nonneg: ret0 >= 0
